@@ -673,6 +673,60 @@ func TestStorms(t *testing.T) {
 			world.Record(world.Hash("storm", name, r), true, "storm/"+name)
 		}
 	}
+	// restricted (partial / delete) updates of many different list functions on different local features at the same
+	// moment: features that have nothing to do with each other must not share unsynchronised state. It runs first: what
+	// a process does for the first time with a list type (lazily filled tables) happens here while other types are
+	// being updated
+	run("restricted-updates-of-many-list-types", func(e *env, stop *atomic.Bool) []func() {
+		const workers = 6
+		type job struct {
+			f    gen.Func
+			feat api.FeatureLocalInterface
+		}
+		var jobs [workers][]job
+		n := 0
+		for _, ft := range gen.UsableFeatureTypes() {
+			if ft == model.FeatureTypeTypeDeviceDiagnosis {
+				continue
+			}
+			var feat api.FeatureLocalInterface
+			for _, f := range gen.ForFeature(ft) {
+				if !f.IsList || !listgen.CapsOf(&f).Keyed {
+					continue
+				}
+				if feat == nil {
+					feat = e.ents[0].GetOrAddFeature(ft, model.RoleTypeServer)
+				}
+				feat.AddFunctionType(f.Fn, true, true)
+				jobs[n%workers] = append(jobs[n%workers], job{f, feat})
+				n++
+			}
+		}
+		var fns []func()
+		for wi := 0; wi < workers; wi++ {
+			mine := jobs[wi]
+			fns = append(fns, func() {
+				for i := range mine {
+					f, feat := &mine[i].f, mine[i].feat
+					feat.SetData(f.Fn, refmodel.Payload(f, []reflect.Value{item(f, 0), item(f, 1)}))
+					for _, u := range []refmodel.Update{
+						{Partial: true, Items: []reflect.Value{item(f, 1), item(f, 2)}},
+						{Partial: true, Items: []reflect.Value{reflect.New(f.ItemType).Elem()}},
+					} {
+						fp, fd := listgen.Filters(f, u)
+						_ = feat.UpdateData(f.Fn, refmodel.Payload(f, u.Items), fp, fd)
+					}
+					if listgen.CapsOf(f).Selectors {
+						u := refmodel.Update{Delete: true, DeleteSelector: listgen.SelectorFor(f, make([]uint64, len(f.KeyFields)))}
+						fp, fd := listgen.Filters(f, u)
+						_ = feat.UpdateData(f.Fn, refmodel.Payload(f, nil), fp, fd)
+					}
+					_ = world.JSON(feat.DataCopy(f.Fn))
+				}
+			})
+		}
+		return fns
+	})
 	lf := gen.ByFunction(model.FunctionTypeLoadControlLimitListData)
 	run("approvals-vs-disconnects", func(e *env, stop *atomic.Bool) []func() {
 		p0, p1 := e.w.Peers[0], e.w.Peers[1]
